@@ -41,6 +41,8 @@ func runC01(c *Ctx) {
 	defer c01H2BodyCopied(c, "C01.R7")
 	c.Rule("C01.R8", "bytes returned by a read are delivered to the filters even when the read also reported EOF", 2)
 	defer c01ReadBytesDelivered(c)
+	c.Rule("C01.R9", "HTTP/2 to HTTP/2: the outgoing URL is the received one (or a copy of it with single fields changed), never composed anew", 1)
+	defer c01H2URLFromReceived(c)
 	c.NotDecided = append(c.NotDecided, "HTTP/1.1 and HTTP/2 method/URI/header/body fidelity (runtime string values)", "tars byte identity (always re-encoded through TarsGo)", "header.EncodeHeader/DecodeHeader inverse property (dependency)")
 	c.Assumptions = append(c.Assumptions, "IoBuffer.Bytes() is a view of the buffer's array; Write/Clone/copy copy (mosn.io/pkg/buffer/iobuffer.go)", "passing wire bytes to TarsGo/thrift/hessian readers does not retain them in the frame")
 
